@@ -342,7 +342,7 @@ static void evaluate(World &w, int top_call, uint64_t now, size_t open_at_entry)
     std::vector<Frame> st;
     std::vector<int> run_order; // schedulings run directly by this command's run_all, in order
     size_t total_inv = 0;
-    if (w.ctx->replay) { // trace for a human reading a replay
+    if (w.ctx->replay && top_call != CALL_HAS) { // trace for a human reading a replay
         int ind = 0;
         fprintf(stderr, "cmd %d: %s", w.cmd, CALLN[top_call]);
         if (top_call == CALL_RUN) fprintf(stderr, "(%" PRIu64 ")", now);
